@@ -1783,8 +1783,14 @@ func isValidLiteralValue(ttype Input, valueAST ast.Value) (bool, []string) {
 				messagesReduce = append(messagesReduce, fmt.Sprintf(`In field "%v": Unknown field.`, fieldAST.Name.Value))
 			}
 		}
-		// Ensure every defined field is valid.
-		for fieldName, field := range fields {
+		// Ensure every defined field is valid (in a stable order).
+		fieldNames := make([]string, 0, len(fields))
+		for fieldName := range fields {
+			fieldNames = append(fieldNames, fieldName)
+		}
+		sort.Strings(fieldNames)
+		for _, fieldName := range fieldNames {
+			field := fields[fieldName]
 			var fieldASTValue ast.Value
 			if fieldAST := fieldASTMap[fieldName]; fieldAST != nil {
 				fieldASTValue = fieldAST.Value
@@ -1832,6 +1838,11 @@ func suggestionList(input string, options []string) []string {
 	filteredOpts := []string{}
 	inputThreshold := float64(len(input) / 2)
 
+	// options usually come from iterating a map: order them so that equally
+	// distant suggestions are always listed in the same order
+	options = append([]string(nil), options...)
+	sort.Strings(options)
+
 	for _, opt := range options {
 		dist := lexicalDistance(input, opt)
 		threshold := math.Max(inputThreshold, float64(len(opt)/2))
@@ -1843,7 +1854,7 @@ func suggestionList(input string, options []string) []string {
 	}
 	//sort results
 	suggested := suggestionListResult{filteredOpts, dists}
-	sort.Sort(suggested)
+	sort.Stable(suggested)
 	return suggested.Options
 }
 
